@@ -45,25 +45,33 @@ theorem base_of (c : Cl) (hg : c.hasGroup = true) (hr : 1 ≤ c.retention) (hs :
       omega
 
 /-- the siblings: commits created in the client's current state, by others, each by an admin or a pure
-    self-update, with non-zero timestamps, pairwise distinct event numbers and MIP-03 keys, not yet seen -/
+    self-update, with non-zero timestamps, pairwise distinct event numbers, MIP-03 keys and MLS
+    ciphertexts (a re-wrapped copy of a commit is the same commit, not a sibling), not yet seen, their
+    ciphertexts not yet consumed by the client's ratchet -/
 structure Siblings (c : Cl) (S : List Ev) : Prop where
   path : ∀ e ∈ S, e.path = c.g.path
   kind : ∀ e ∈ S, ∃ b sw, e.kind = .commit b sw ∧ (isAdmin c.g e.sender || isPureSelfUpdate b sw) = true
   foreign : ∀ e ∈ S, e.sender ≠ c.id
   ts : ∀ e ∈ S, e.ts ≠ 0
-  distinct : ∀ e1 ∈ S, ∀ e2 ∈ S, e1 ≠ e2 → e1.n ≠ e2.n ∧ (e1.ts, e1.idnum) ≠ (e2.ts, e2.idnum)
+  distinct : ∀ e1 ∈ S, ∀ e2 ∈ S, e1 ≠ e2 → e1.n ≠ e2.n ∧ (e1.ts, e1.idnum) ≠ (e2.ts, e2.idnum) ∧ e1.cipher ≠ e2.cipher
   unseen : ∀ e ∈ S, getRec c e.n = none
+  unconsumed : ∀ e ∈ S, e.cipher ∉ c.g.consumed
 
 theorem sibs_of (c : Cl) (S : List Ev) (h : Siblings c S) : Sibs c S where
-  sib := fun e he => ⟨h.path e he, h.kind e he, by simpa using h.foreign e he, h.ts e he⟩
+  sib := fun e he => ⟨h.path e he, h.kind e he, by simpa using h.foreign e he, h.ts e he, h.unconsumed e he⟩
   inj := by
     intro e1 h1 e2 h2 hk
     by_cases x : e1 = e2
     · exact x
-    · obtain ⟨a, b⟩ := h.distinct e1 h1 e2 h2 x
+    · obtain ⟨a, b, _⟩ := h.distinct e1 h1 e2 h2 x
       rcases hk with y | y
       · exact absurd y a
       · exact absurd y b
+  cinj := by
+    intro e1 h1 e2 h2 hk
+    by_cases x : e1 = e2
+    · exact x
+    · exact absurd hk (h.distinct e1 h1 e2 h2 x).2.2
   norec := h.unseen
 
 /-- **single_fork (bystander)**.  For every client at the parent state (group present, retention ≥ 1,
@@ -71,8 +79,9 @@ theorem sibs_of (c : Cl) (S : List Ev) (h : Siblings c S) : Sibs c S where
     pending commit, queued proposals, stored messages, other records or older snapshots), every set of
     sibling commits, and EVERY non-empty delivery list over them — any order, any repetition — there
     is a delivered sibling `w` that precedes every other delivered sibling in the MIP-03 order and
-      * the client's MLS path is the parent path extended by `w`,
-      * its group state is exactly `w`'s commit applied to the parent state (`childG`),
+      * the client's MLS path is the parent path extended by `w` (its ciphertext identity),
+      * its group state is `w`'s commit applied to the parent state (`childG`) — in every field except the
+        list of consumed ratchet generations (`wc · []` blanks it), which also remembers the losers,
       * `w`'s record is ProcessedCommit, and
       * every other delivered sibling has a Failed (3) / EpochInvalidated (4) record: the dedup step
         refuses it from now on. -/
@@ -80,8 +89,8 @@ theorem single_fork_bystander (c : Cl) (S : List Ev) (l : List Ev) (nx : Nat)
     (hg : c.hasGroup = true) (hr : 1 ≤ c.retention) (hsec : SecretsOK c.g) (hm : NoForkSnapshot c)
     (hS : Siblings c S) (hl : ∀ e ∈ l, e ∈ S) (hne : l ≠ []) :
     ∃ w ∈ l, (∀ e ∈ l, e = w ∨ klt (key w) (key e) = true) ∧
-      (l.foldl (fun c e => (deliver c e nx).1) c).g.path = c.g.path ++ [w.n] ∧
-      (l.foldl (fun c e => (deliver c e nx).1) c).g = childG c w ∧
+      (l.foldl (fun c e => (deliver c e nx).1) c).g.path = c.g.path ++ [w.cipher] ∧
+      wc (l.foldl (fun c e => (deliver c e nx).1) c).g [] = wc (childG c w) [] ∧
       (getRec (l.foldl (fun c e => (deliver c e nx).1) c) w.n).map (·.state) = some 2 ∧
       ∀ e ∈ l, e ≠ w → ∃ r, getRec (l.foldl (fun c e => (deliver c e nx).1) c) e.n = some r ∧ (r.state = 3 ∨ r.state = 4) := by
   have hb := base_of c hg hr hsec hm
@@ -93,7 +102,7 @@ theorem single_fork_bystander (c : Cl) (S : List Ev) (l : List Ev) (nx : Nat)
   have hw : w ∈ l := by
     have : e0 = w := hSs.inj e0 (hl e0 he0) w hwS (Or.inr (hk0.trans hwk.symm))
     rw [← this]; exact he0
-  refine ⟨w, hw, ?_, ?_, hcf.g, by rw [hrw]; rfl, ?_⟩
+  refine ⟨w, hw, ?_, ?_, by rw [hcf.g]; rfl, by rw [hrw]; rfl, ?_⟩
   · intro e he
     rcases hmin (key e) (List.mem_map.mpr ⟨e, he, rfl⟩) with x | x
     · exact Or.inl (hSs.inj e (hl e he) w hwS (Or.inr (x.symm.trans hwk.symm)))
@@ -134,7 +143,7 @@ def single_fork_bystander_full : Prop :=
   ∀ (c : Cl) (S l : List Ev) (nx : Nat), c.hasGroup = true → SecretsOK c.g → NoForkSnapshot c →
     Siblings c S → (∀ e ∈ l, e ∈ S) → l ≠ [] →
     ∃ w ∈ l, (∀ e ∈ l, e = w ∨ klt (key w) (key e) = true) ∧
-      (l.foldl (fun c e => (deliver c e nx).1) c).g.path = c.g.path ++ [w.n]
+      (l.foldl (fun c e => (deliver c e nx).1) c).g.path = c.g.path ++ [w.cipher]
 
 def cA : Ev := { n := 1, ts := 20, idnum := 7, cipher := 1, sender := 1, path := [], kind := .commit .selfUpdate [] }
 def cB : Ev := { n := 2, ts := 19, idnum := 9, cipher := 2, sender := 0, path := [], kind := .commit (.setName 4) [] }
@@ -157,6 +166,7 @@ theorem by0_siblings0 : Siblings (by0 0) [cA, cB, cC] where
   ts := by decide
   distinct := by decide
   unseen := by decide
+  unconsumed := by decide
 
 theorem by0_siblings5 : Siblings (by0 5) [cA, cB, cC] where
   path := by decide
@@ -171,6 +181,7 @@ theorem by0_siblings5 : Siblings (by0 5) [cA, cB, cC] where
   ts := by decide
   distinct := by decide
   unseen := by decide
+  unconsumed := by decide
 
 /-- `retention-zero-no-rollback`: A then the better B with retention 0 — the client stays on A -/
 theorem witness_retention_zero :
@@ -194,7 +205,7 @@ theorem single_fork_bystander_full_false : ¬ single_fork_bystander_full := by
 
 /-- non-vacuity: three siblings, a four-element delivery list with a repetition; the theorem applies
     (its hypotheses hold) and its conclusion is the MIP-03 winner B (ts 19, id 9 < C: ts 19, id 11 < A: ts 20) -/
-example : ∃ w ∈ [cA, cC, cA, cB], ([cA, cC, cA, cB].foldl (fun c e => (deliver c e 0).1) (by0 5)).g.path = (by0 5).g.path ++ [w.n] := by
+example : ∃ w ∈ [cA, cC, cA, cB], ([cA, cC, cA, cB].foldl (fun c e => (deliver c e 0).1) (by0 5)).g.path = (by0 5).g.path ++ [w.cipher] := by
   obtain ⟨w, hw, _, hp, _⟩ := single_fork_bystander (by0 5) [cA, cB, cC] [cA, cC, cA, cB] 0 rfl (by decide)
     (by0_secrets 5) (by0_nosnap 5) by0_siblings5 (by decide) (by decide)
   exact ⟨w, hw, hp⟩
@@ -203,6 +214,25 @@ example : ([cA, cC, cA, cB].foldl (fun c e => (deliver c e 0).1) (by0 5)).g.path
     ([cA, cC, cA, cB].foldl (fun c e => (deliver c e 0).1) (by0 5)).g.name = 4 ∧
     (getRec ([cA, cC, cA, cB].foldl (fun c e => (deliver c e 0).1) (by0 5)) 1).map (·.state) = some 4 ∧
     (getRec ([cA, cC, cA, cB].foldl (fun c e => (deliver c e 0).1) (by0 5)) 3).map (·.state) = some 4 := by decide
+
+/-! ### the ciphertext hypotheses are needed too
+
+  OpenMLS consumes the sender's ratchet generation when it decrypts a commit, and mdk snapshots only
+  afterwards: the snapshot already holds the consumption.  (a) A sibling whose ciphertext the client has
+  consumed before is refused at the parent state.  (b) A re-wrapped copy of the applied commit (same MLS
+  ciphertext under a new wrapper with a better MIP-03 key) makes the client roll back — and then fail to
+  re-process it (the generation is consumed in the restored state): it is left at the parent state with
+  nothing applied (open finding, replayed by corpus/C06/rewrapped_commit.trace). -/
+
+def cBre : Ev := { cB with n := 9, idnum := 3 }
+
+theorem witness_consumed_cipher :
+    (deliver { by0 5 with g := { (by0 5).g with consumed := [2] } } cB 0).2 = .unprocessable ∧
+    (deliver { by0 5 with g := { (by0 5).g with consumed := [2] } } cB 0).1.g.path = [] := by decide
+
+theorem witness_rewrapped_sibling :
+    ([cB, cBre].foldl (fun c e => (deliver c e 0).1) (by0 5)).g.path = [] ∧
+    (getRec ([cB, cBre].foldl (fun c e => (deliver c e 0).1) (by0 5)) 2).map (·.state) = some 4 := by decide
 
 /-! ### the committer: its own staged commit among the siblings, applied on relay echo
 
@@ -268,6 +298,7 @@ theorem sibs2_of (c : Cl) (o : Ev) (S : List Ev) (ho : OwnCommit c o) (h : Sibli
     (hd : ∀ e ∈ S, e.n ≠ o.n ∧ (e.ts, e.idnum) ≠ (o.ts, o.idnum)) : Sibs2 c o S where
   own := ⟨ho.path, ho.kind, by simp [ho.own], ho.ts, ho.pending, ho.record⟩
   sib := (sibs_of c S h).sib
+  cinj := (sibs_of c S h).cinj
   inj := by
     intro e1 h1 e2 h2 hk
     rcases List.mem_cons.mp h1 with rfl | h1' <;> rcases List.mem_cons.mp h2 with rfl | h2'
@@ -293,8 +324,8 @@ theorem single_fork_committer (c : Cl) (o : Ev) (S : List Ev) (l : List Ev) (nx 
     (hd : ∀ e ∈ S, e.n ≠ o.n ∧ (e.ts, e.idnum) ≠ (o.ts, o.idnum))
     (hl : ∀ e ∈ l, e ∈ o :: S) (hne : l ≠ []) :
     ∃ w ∈ l, (∀ e ∈ l, e = w ∨ klt (key w) (key e) = true) ∧
-      (l.foldl (fun c e => (deliver c e nx).1) c).g.path = c.g.path ++ [w.n] ∧
-      (l.foldl (fun c e => (deliver c e nx).1) c).g = childG c w ∧
+      (l.foldl (fun c e => (deliver c e nx).1) c).g.path = c.g.path ++ [w.cipher] ∧
+      wc (l.foldl (fun c e => (deliver c e nx).1) c).g [] = wc (childG c w) [] ∧
       (l.foldl (fun c e => (deliver c e nx).1) c).g.pending = none ∧
       (getRec (l.foldl (fun c e => (deliver c e nx).1) c) w.n).map (·.state) = some 2 ∧
       ∀ e ∈ l, e ≠ w → e ≠ o → ∃ r, getRec (l.foldl (fun c e => (deliver c e nx).1) c) e.n = some r ∧ (r.state = 3 ∨ r.state = 4) := by
@@ -308,7 +339,7 @@ theorem single_fork_committer (c : Cl) (o : Ev) (S : List Ev) (l : List Ev) (nx 
     have : e0 = w := hSs.inj e0 (hl e0 he0) w hwT (Or.inr (hk0.trans hwk.symm))
     rw [← this]; exact he0
   obtain ⟨bw, sww, hkw⟩ := (hSs.com w hwT).kind
-  refine ⟨w, hw, ?_, ?_, hcf.g, by rw [hcf.g]; exact (childG_data c w bw sww hkw).2.2.1, by rw [hrw]; rfl, ?_⟩
+  refine ⟨w, hw, ?_, ?_, by rw [hcf.g]; rfl, by rw [hcf.g]; exact (childG_data c w bw sww hkw).2.2.1, by rw [hrw]; rfl, ?_⟩
   · intro e he
     rcases hmin (key e) (List.mem_map.mpr ⟨e, he, rfl⟩) with x | x
     · exact Or.inl (hSs.inj e (hl e he) w hwT (Or.inr (x.symm.trans hwk.symm)))
@@ -380,7 +411,7 @@ theorem single_fork_reachable (id : Nat) (p : Bool) (r : Nat) (ms as : List Nat)
     (hS : Siblings (ops.foldl C08.cstep (initCl id p r ms as name)) S) (hl : ∀ e ∈ l, e ∈ S) (hne : l ≠ []) :
     ∃ w ∈ l, (∀ e ∈ l, e = w ∨ klt (key w) (key e) = true) ∧
       (l.foldl (fun c e => (deliver c e nx).1) (ops.foldl C08.cstep (initCl id p r ms as name))).g.path =
-        (ops.foldl C08.cstep (initCl id p r ms as name)).g.path ++ [w.n] := by
+        (ops.foldl C08.cstep (initCl id p r ms as name)).g.path ++ [w.cipher] := by
   obtain ⟨h1, h2, _⟩ := secrets_follow_path id p r ms as name ops
   obtain ⟨w, hw, hmin, hp, _⟩ := single_fork_bystander _ S l nx hg hr h1 h2 hS hl hne
   exact ⟨w, hw, hmin, hp⟩
